@@ -314,8 +314,8 @@ pub fn run(ctx: &Ctx) {
     ctx.rule("cases: (a) multi-exponential fits from random starts (tau in [-10,10], 0.2x-5x and -1x..3x the truth) under default and random optimizer settings; (b) zoo problems with values from the hostile IEEE-754 pool {0,-0,+-1,NaN,+-inf,+-MAX,MIN_POSITIVE,5e-324,1e+-300,1e+-154,...} substituted into x, y, w, alpha, epsilon with probability 0.02..0.6; (d) models accepted by the model builder from random near-valid builder programs (closures of arity 1..10) are evaluated, differentiated and fitted; (c) table models N=1..9 (including N<M), M=1..4, P=1..3, S=1..3 with hostile entries in values and derivatives; 30% f32; each case = build, 0..3 parameter updates with queries, fit, fit_with_statistics and every statistics accessor, executed in a child process under a CPU-time watchdog. distinct = hash of the generated problem; non-trivial = hostile value injected or random start");
     ctx.assume(&format!("liveness restated as bounded progress: every case returns within {CPU_BUDGET_S} CPU-seconds (isolated replay: 3x), >=100x the slowest legitimately terminating case of this corpus"));
     ctx.assume("panics are caught inside the child (catch_unwind) and reported as events; the panic location decides whether the subject or the harness panicked");
-    let n = ctx.tier.pick(10000, 150000);
-    let wall = ctx.tier.pick(120.0, 900.0);
+    let n = ctx.tier.pick(10000, 600000);
+    let wall = ctx.tier.pick(120.0, 1800.0);
     for profile in ["checked", "release"] {
         let exe = exe_for_profile(profile);
         if !std::path::Path::new(&exe).exists() {
